@@ -24,36 +24,15 @@ theorem mem_iterFrames_mem_frames {s : State} (h : InvK s) {ctx last : Option Na
 /-- the gc queue after an accepted append -/
 theorem append_gcq {s s' : State} {f0 f : Frame} {id : Nat} (e : s.append f0 id = .ok (s', f)) :
     s'.gcq = s.gcq ++ (if f.ttl = some .ephemeral then [] else headTask f) := by
-  obtain ⟨hn, hf, hc, _⟩ := append_ok e
-  unfold State.append State.appendPre at e
-  by_cases ht : f0.topic = xsContext
-  · have hc0 : f0.ctx = 0 := by simpa [ht] using hc
-    simp only [ht, hc0, ne_eq, not_true_eq_false, if_true, if_false] at e
-    unfold State.appendStore at e
-    simp only [xsContext_nulFree, Bool.false_eq_true, if_false, reduceCtorEq] at e
-    injection e with e; injection e with e1 e2
-    subst e1 e2
-    simp [State.insertFrameCore]
-  · have hcc : f0.ctx ∈ s.contexts := by simpa [ht] using hc
-    simp only [ht, hcc, if_true, if_false] at e
-    unfold State.appendStore at e
-    simp only [hn, Bool.false_eq_true, if_false] at e
-    by_cases he : f0.ttl = some TTL.ephemeral
-    · simp only [he, if_true] at e
-      injection e with e; injection e with e1 e2
-      subst e1 e2
-      simp
-    · simp only [he, if_false] at e
-      injection e with e; injection e with e1 e2
-      subst e1 e2
-      simp [State.insertFrameCore, he]
+  obtain ⟨_, _, _, h4⟩ := append_spec.1 e
+  by_cases he : f.ttl = some .ephemeral
+  · simp only [he, if_true] at h4 ⊢; rw [h4]; simp
+  · simp only [he, if_false] at h4 ⊢; rw [h4.2]; simp [storedState, State.insertFrameCore]
 
 theorem insertFrame_gcq {s s' : State} {f : Frame} (e : s.insertFrame f = .ok s') :
     s'.gcq = s.gcq := by
-  unfold State.insertFrame at e
-  split at e
-  · cases e
-  · injection e with e; subst e; rfl
+  obtain ⟨_, _, rfl⟩ := insertFrame_ok e
+  rfl
 
 theorem remove_gcq (s : State) (id : Nat) : (s.remove id).gcq = s.gcq := by
   unfold State.remove
@@ -262,21 +241,10 @@ theorem append_ephemeral {s s' : State} {f0 f : Frame} {id : Nat}
     (e : s.append f0 id = .ok (s', f)) (he : f.ttl = some .ephemeral) :
     s'.stream = s.stream ∧ s'.idxT = s.idxT ∧ s'.idxC = s.idxC ∧ s'.contexts = s.contexts ∧
     s'.gcq = s.gcq ∧ s'.bcast = s.bcast ++ [f] := by
-  obtain ⟨hn, hf, hc, hb⟩ := append_ok e
-  have hgq := append_gcq e
-  unfold State.append State.appendPre at e
-  by_cases ht : f0.topic = xsContext
-  · rw [hf] at he; simp [ht] at he
-  · have hcc : f0.ctx ∈ s.contexts := by simpa [ht] using hc
-    simp only [ht, hcc, if_true, if_false] at e
-    unfold State.appendStore at e
-    rw [hf] at he
-    simp only [ht, if_false] at he
-    simp only [hn, Bool.false_eq_true, if_false, he, if_true] at e
-    injection e with e; injection e with e1 e2
-    subst e1
-    refine ⟨rfl, rfl, rfl, rfl, rfl, ?_⟩
-    rw [← e2]
+  obtain ⟨_, _, _, h4⟩ := append_spec.1 e
+  simp only [he, if_true] at h4
+  rw [h4]
+  exact ⟨rfl, rfl, rfl, rfl, rfl, rfl⟩
 
 theorem applyTask_sublist (s : State) (t : GCTask) : (frames (s.applyTask t)).Sublist (frames s) := by
   have hrem : ∀ (s : State) (id : Nat), (frames (s.remove id)).Sublist (frames s) := by
